@@ -145,6 +145,7 @@ func checkC11(cx *Ctx, r *Report) {
 	} else {
 		r.Fail("R-VFG", "metadata", "", "metadata handler not found")
 	}
+	cx.checkIssuerSchemeFlag(r)
 	// GetEntityID = metadataEndpoint.Absolute(IssuerFromContext(ctx))
 	if ge := w.Func("provider.(*IdentityProvider).GetEntityID"); ge != nil {
 		ok := false
